@@ -89,6 +89,16 @@ class KeysView(list):
     """dict.keys(): a list (insertion order) that also supports the set operators."""
 
 
+class LazyGen:
+    """A generator expression: elements are evaluated when (and only as far as) they are consumed."""
+
+    def __init__(self, gen):
+        self.gen = gen
+
+    def pull(self):
+        return self.gen
+
+
 class IterObj:
     """iter(x): a position in a materialised sequence."""
 
@@ -328,6 +338,8 @@ class Interp:
                     return r
                 raise Undecided(f"re.{attr} on symbolic text")
             return PyCallable(_re)
+        if module == "collections" and attr == "deque":
+            return PyCallable(lambda it, a, k: list(it.iterate(a[0])) if a else [])
         if module == "itertools" and attr == "count":
             return PyCallable(lambda it, a, k: range(a[0] if a else 0, (a[0] if a else 0) + (1 << 16), a[1] if len(a) > 1 else 1))
         if module == "collections" and attr == "defaultdict":
@@ -652,7 +664,7 @@ class Interp:
             else:
                 self.exec_block(st.orelse, env)
         elif isinstance(st, ast.For):
-            it = self.iterate(self.eval(st.iter, env))
+            it = self.iter_lazy(self.eval(st.iter, env))
             broke = False
             for item in it:
                 self.assign(st.target, item, env)
@@ -1184,7 +1196,7 @@ class Interp:
                 raise Undecided(f"module {base.name} has no {attr}")
             return r
         if isinstance(base, str):
-            return PyCallable(lambda it, a, k, b=base, at=attr: _str_method(b, at, a))
+            return PyCallable(lambda it, a, k, b=base, at=attr: _str_method(b, at, [list(x.pull()) if isinstance(x, LazyGen) else x for x in a]))
         if isinstance(base, SymStr):
             def _m(it, a, k, b=base, at=attr):
                 call = f"{b.text}.{at}({', '.join(map(repr, a))})"
@@ -1223,6 +1235,12 @@ class Interp:
                     return b.pop(*[_idx(x) for x in a])
                 except IndexError:
                     raise PyRaise("IndexError")
+            if at == "popleft":
+                if not b:
+                    raise PyRaise("IndexError")
+                return b.pop(0)
+            if at == "appendleft":
+                b.insert(0, a[0]); return None
             if at == "insert":
                 b.insert(_idx(a[0]), a[1]); return None
             if at == "index":
@@ -1352,8 +1370,29 @@ class Interp:
         self._comp(n, env, lambda e: out.append(self.eval(n.elt, e)))
         return out
 
+    def _comp_lazy(self, n, env):
+        """Python generator over the element values of a comprehension, evaluated on demand."""
+        def rec(i, env2):
+            if i == len(n.generators):
+                yield self.eval(n.elt, env2)
+                return
+            g = n.generators[i]
+            for item in self.iter_lazy(self.eval(g.iter, env2)):
+                e3 = {"__parent__": env2}
+                self.assign(g.target, item, e3)
+                if all(self.decide(self.eval(c, e3)) for c in g.ifs):
+                    yield from rec(i + 1, e3)
+
+        yield from rec(0, {"__parent__": env})
+
     def e_GeneratorExp(self, n, env):
-        return tuple(self.e_ListComp(n, env))
+        return LazyGen(self._comp_lazy(n, env))
+
+    def iter_lazy(self, v):
+        """Items of v one at a time: a generator expression is advanced only as far as it is consumed."""
+        if isinstance(v, LazyGen):
+            return v.pull()
+        return iter(self.iterate(v))
 
     def e_SetComp(self, n, env):
         return set(_h(x) for x in self.e_ListComp(n, env))
@@ -1428,6 +1467,8 @@ class Interp:
 
     # ------------------------------------------------------------------ builtins
     def iterate(self, v):
+        if isinstance(v, LazyGen):
+            return list(v.pull())
         if isinstance(v, IterObj):
             rest = v.items[v.pos:]
             v.pos = len(v.items)
@@ -1497,6 +1538,12 @@ class Interp:
             return a[0] if isinstance(a[0], IterObj) else IterObj(self.iterate(a[0]))
         if name == "next":
             src = a[0]
+            if isinstance(src, LazyGen):
+                for item in src.pull():
+                    return item
+                if len(a) > 1:
+                    return a[1]
+                raise PyRaise("StopIteration", node)
             if not isinstance(src, IterObj):
                 # a generator expression (evaluated eagerly to a list): sound for a single next() on it
                 if not isinstance(src, (list, tuple)):
